@@ -7,6 +7,7 @@ import (
 	"bytes"
 	"context"
 	"fmt"
+	"math"
 	"reflect"
 	"sort"
 	"testing"
@@ -36,7 +37,7 @@ import (
 )
 
 const (
-	nowEpoch       = 100  // the duty gater's "current" epoch; contents live in this epoch (deneb fork of the mock)
+	nowEpoch       = 100  // plain cases: contents live in this epoch (deneb fork of the mock), the gater's clock too
 	otherForkDelta = 4096 // nowEpoch+4096 lies in the mock's next fork (electra from epoch 2048)
 	unknownVIdx    = 999
 )
@@ -68,14 +69,41 @@ type caseCtx struct {
 	got      []delivery
 }
 
+// layout places an object in time: its slot and (attestation data) its target epoch.
+type layout struct {
+	slot eth2p0.Slot
+	tgt  eth2p0.Epoch
+}
+
+func (w *world) slotEpoch() eth2p0.Epoch { return eth2p0.Epoch(uint64(w.lay.slot) / w.spe) }
+
+// place sets the layout of the case and moves the gater's clock to the object's slot.
+func (w *world) place(side string) {
+	switch side {
+	case "before": // slot in the last slot before the fork activation, target epoch at it
+		w.lay = layout{slot: eth2p0.Slot(uint64(w.forkAt)*w.spe - 1), tgt: w.forkAt}
+	case "after": // slot in the first slot of the new fork, target epoch before it
+		w.lay = layout{slot: eth2p0.Slot(uint64(w.forkAt) * w.spe), tgt: w.forkAt - 1}
+	default:
+		w.lay = layout{slot: eth2p0.Slot(nowEpoch*w.spe + 3), tgt: nowEpoch}
+	}
+	w.now = w.gen.Add(time.Duration(uint64(w.lay.slot)) * w.slotD).Add(time.Second)
+}
+
 type world struct {
 	t      *testing.T
 	ctx    context.Context
 	n, v   int
 	bmock  beaconmock.Mock
 	spe    uint64
-	slot   eth2p0.Slot
-	vals   map[int]*valKeys // labels 1..V in the lock, V+1 only known to the beacon node
+	lay    layout       // where the current case's object sits in time
+	forkAt eth2p0.Epoch // first fork activation after nowEpoch in the mock's schedule
+	now    time.Time    // the duty gater's clock (set per case)
+	gen    time.Time
+	slotD  time.Duration
+	dom    map[string]signing.DomainName // the MODEL's tables (Cfg step): signing domain per kind ...
+	esrc   map[string]string             // ... and which of the object's time fields selects the fork version
+	vals   map[int]*valKeys              // labels 1..V in the lock, V+1 only known to the beacon node
 	lock   map[core.PubKey]map[int]tbls.PublicKey
 	vapis  map[int]*validatorapi.Component
 	psx    map[int]*parsigex.ParSigEx
@@ -146,14 +174,22 @@ func newWorld(t *testing.T, n, v int) *world {
 	w.bmock = bmock
 	w.spe, err = bmock.SlotsPerEpoch(ctx)
 	must(t, err)
-	w.slot = eth2p0.Slot(nowEpoch*w.spe + 3)
-
-	genesis, err := eth2wrap.FetchGenesisTime(ctx, bmock)
+	w.gen, err = eth2wrap.FetchGenesisTime(ctx, bmock)
 	must(t, err)
-	slotDur, _, err := eth2wrap.FetchSlotsConfig(ctx, bmock)
+	w.slotD, _, err = eth2wrap.FetchSlotsConfig(ctx, bmock)
 	must(t, err)
-	now := genesis.Add(time.Duration(uint64(w.slot)) * slotDur).Add(time.Second)
-	gater, err := core.NewDutyGater(ctx, bmock, core.WithDutyGaterForT(t, func() time.Time { return now }, 2))
+	forks, err := bmock.ForkSchedule(ctx, &eth2api.ForkScheduleOpts{})
+	must(t, err)
+	for _, f := range forks.Data {
+		if f.Epoch > nowEpoch && (w.forkAt == 0 || f.Epoch < w.forkAt) {
+			w.forkAt = f.Epoch
+		}
+	}
+	if w.forkAt == 0 || w.forkAt > nowEpoch+otherForkDelta {
+		t.Fatalf("setup: the mock's fork schedule has no activation in (%d, %d]", nowEpoch, nowEpoch+otherForkDelta)
+	}
+	w.place("")
+	gater, err := core.NewDutyGater(ctx, bmock, core.WithDutyGaterForT(t, func() time.Time { return w.now }, 2))
 	must(t, err)
 	verifier, err := parsigex.NewEth2Verifier(bmock, w.lock)
 	must(t, err)
@@ -296,6 +332,13 @@ func TestExec(t *testing.T) {
 		if w == nil || w.n != n || w.v != v {
 			w = newWorld(t, n, v)
 		}
+		w.dom, w.esrc = map[string]signing.DomainName{}, map[string]string{}
+		for k, d := range s[0]["dom"].(map[string]any) {
+			w.dom[k] = signing.DomainName(drv.Str(d))
+		}
+		for k, e := range s[0]["esrc"].(map[string]any) {
+			w.esrc[k] = drv.Str(e)
+		}
 		c := s[1]["c"].(map[string]any)
 		tr.Emit(drv.Step{"ev": "Submit", "c": c})
 		if err := w.run(tr, parseCase(c)); err != nil {
@@ -325,6 +368,11 @@ type entry struct {
 // run builds the case's concrete submission, sends it through the real handler and logs the outcome.
 func (w *world) run(tr *drv.Tracer, c acase) error {
 	w.cur = &caseCtx{}
+	if c.alt == "straddleOK" || c.alt == "straddleBad" {
+		w.place(c.as)
+	} else {
+		w.place("")
+	}
 	own := c.node
 	if c.path == "peer" {
 		own = c.sender
@@ -409,7 +457,22 @@ func (w *world) build(c acase, own, val int, alt string, ai int, as string) (ent
 	if err != nil {
 		return entry{}, err
 	}
-	dom, epoch := s.dom, s.epoch
+	// sign as the MODEL's tables say: domain name of the kind, fork version at the kind's epoch source
+	dom, ok := w.dom[c.kind]
+	src := w.esrc[c.kind]
+	epoch, ok2 := s.times[src]
+	if !ok || !ok2 {
+		return entry{}, fmt.Errorf("model tables: kind %s has domain %q, epoch source %q; the object has %v", c.kind, dom, src, s.times)
+	}
+	if alt == "straddleBad" { // the fork version at the object's OTHER time field
+		other := "slot"
+		if src == "slot" {
+			other = "target"
+		}
+		if epoch, ok = s.times[other]; !ok {
+			return entry{}, fmt.Errorf("kind %s has no second time field", c.kind)
+		}
+	}
 	if alt == "wrongDomain" {
 		dom = signing.DomainName(as)
 	}
@@ -419,7 +482,7 @@ func (w *world) build(c acase, own, val int, alt string, ai int, as string) (ent
 	}
 	var sigData [32]byte
 	switch {
-	case alt == "wrongFork" && dom == signing.DomainApplicationBuilder:
+	case alt == "wrongFork" && src == "genesis" && alt != "wrongDomain":
 		// the builder domain is pinned to the genesis fork version: sign with the current fork version instead
 		spec, err := w.bmock.Spec(w.ctx, &eth2api.SpecOpts{})
 		if err != nil {
@@ -491,7 +554,7 @@ func (w *world) build(c acase, own, val int, alt string, ai int, as string) (ent
 }
 
 func (w *world) submitPeer(c acase, entries []entry) (herr, err error) {
-	slot := uint64(w.slot)
+	slot := uint64(w.lay.slot)
 	// the duty type under which a peer files this kind of object
 	kindDuty := map[string]core.DutyType{"attestation": core.DutyAttester, "proposal": core.DutyProposer, "blinded": core.DutyProposer,
 		"randao": core.DutyRandao, "exit": core.DutyExit, "registration": core.DutyBuilderRegistration,
@@ -502,9 +565,20 @@ func (w *world) submitPeer(c acase, entries []entry) (herr, err error) {
 	case "dutyType":
 		dt = c.ai
 	case "future":
-		slot = (nowEpoch + 3) * w.spe
+		slot = (uint64(w.slotEpoch()) + 3) * w.spe
 	case "futureEdge":
-		slot = (nowEpoch+2)*w.spe + w.spe - 1
+		slot = (uint64(w.slotEpoch())+2)*w.spe + w.spe - 1
+	case "hugeSlot":
+		switch c.as {
+		case "2p63":
+			slot = 1 << 63
+		case "2p63now":
+			slot = 1<<63 + uint64(w.lay.slot)
+		case "max":
+			slot = math.MaxUint64
+		default:
+			return nil, fmt.Errorf("unknown huge slot %q", c.as)
+		}
 	}
 	set := map[string]*pbv1.ParSignedData{}
 	for _, e := range entries {
